@@ -150,11 +150,20 @@ def cmp_formula(op, a, b):
     return Not(L)
 
 
+UNSIGNED_TERMS = set()     # canonical terms seen in a comparison typed as an unsigned integer
+UNSIGNED_TYS = ("u8", "u16", "u32", "u64", "u128", "usize")
+
+
 def consistent(asg, extra_constraints=()):
     for k, v in asg.items():
         if v and k.startswith("lt("):
             e = "eq(" + k[3:]
             if asg.get(e):
+                return False
+        if not v and k.startswith("lt(0,") and k[5:-1] in UNSIGNED_TERMS:
+            # an unsigned x is either 0 or greater: `x > 0`, `x != 0`, `x >= 1` are the same test
+            e = "eq(" + k[3:]
+            if e in asg and not asg[e]:
                 return False
     for c in extra_constraints:
         if not evalf(c, asg):
@@ -511,6 +520,13 @@ class Ctx:
                     eq = Or(And(a, b), And(Not(a), Not(b)))
                     return eq if op == "==" else Not(eq) if op == "!=" else Atom("e:" + self.term(n))
                 tl, tr = self.term(n["l"]), self.term(n["r"])
+                if peel_ty(lt) in UNSIGNED_TYS:
+                    UNSIGNED_TERMS.update((tl, tr))
+                    # `x >= 1` / `x < 1` on an unsigned x are `x > 0` / `x == 0`
+                    if tr == "1" and op in (">=", "<"):
+                        tr, op = "0", (">" if op == ">=" else "==")
+                    elif tl == "1" and op in ("<=", ">"):
+                        tl, op = "0", ("<" if op == "<=" else "==")
                 # `x.len() > 0`, `x.len() != 0`, `x.len() >= 1`, `0 < x.len()` .. are spellings of `!x.is_empty()`
                 flip = {"<": ">", "<=": ">=", ">": "<", ">=": "<=", "==": "==", "!=": "!="}
                 for a, b, o in ((tl, tr, op), (tr, tl, flip[op])):
